@@ -73,6 +73,13 @@ func resolveStruct(rv reflect.Value, fieldName string) (any, bool) {
 // resolveMap handles map access by string key.
 func resolveMap(rv reflect.Value, key string) (any, bool) {
 	mapKey := reflect.ValueOf(key)
+	if !mapKey.Type().AssignableTo(rv.Type().Key()) {
+		if !mapKey.Type().ConvertibleTo(rv.Type().Key()) || rv.Type().Key().Kind() != reflect.String {
+			// Only string-keyed maps are addressable by a path step.
+			return nil, false
+		}
+		mapKey = mapKey.Convert(rv.Type().Key())
+	}
 	v := rv.MapIndex(mapKey)
 	if !v.IsValid() {
 		return nil, false
